@@ -24,6 +24,8 @@ def gen_cases(tier, seed):
         cases.append({"part": "pool", "shard": i, "nshards": n, "seed": seed, "tier": tier})
     for i in range(n):
         cases.append({"part": "eltwise", "shard": i, "nshards": n, "seed": seed, "tier": tier})
+    for i in range(n):
+        cases.append({"part": "records", "seed": seed * 9001 + i, "n": 6 if q else 30})
     return cases
 
 
@@ -301,18 +303,47 @@ def run_eltwise(case):
     return {"violations": list(viol.values()), "counters": counters, "keys": ["%d:%s" % (case["shard"], k) for k in sorted(keys)], "sample": sample}
 
 
+def run_records(case):
+    """packed scale records of real compilations: the (multiplier, shift) stored per output channel in the emitted weight/scale tensors must be the
+    reference derivation for the operator that requested them (contract of checks.c08 around encode_weight_and_scale_tensor; one forked child per compile)"""
+    import types
+
+    from checks import c08
+    from vv import cfggen, harness
+
+    rng = np.random.default_rng(np.random.SeedSequence([909, case["seed"]]))
+    shim = types.SimpleNamespace(run_case=c08.run_campaign)
+    viol = {}
+    counters = {"record_compilations": 0, "scale_records_checked": 0}
+    fams = ["exact-chain", "exact-dag", "exact-chain", "buffer-stress", "shared-weights", "approx-tail", "stripe-stress", "cpu-mix"]
+    for t in range(case["n"]):
+        sub = {"family": fams[int(rng.integers(0, len(fams)))], "nseed": case["seed"] * 40 + t, "cfg": cfggen.rand_cfg(rng), "sdir": case["sdir"], "part": "campaign"}
+        res = harness._run_forked(shim, sub, 300.0)
+        if "counters" not in res:
+            counters["record_compilations_lost"] = counters.get("record_compilations_lost", 0) + 1
+            continue
+        counters["record_compilations"] += 1
+        counters["scale_records_checked"] += res["counters"].get("scale_records_checked", 0)
+        for v in res.get("violations", []):
+            if v["mech"].startswith("scale-record") or v["mech"].startswith("scale-tensor"):
+                viol.setdefault("packed-record:" + v["mech"], dict(v, mech="packed-record:" + v["mech"]))
+    return {"violations": list(viol.values()), "counters": counters, "keys": ["records"] if counters["scale_records_checked"] else [], "sample": {"part": "records", "records": counters["scale_records_checked"]}}
+
+
 def run_case(case):
-    return {"scale": run_scale, "pool": run_pool, "eltwise": run_eltwise}[case["part"]](case)
+    return {"scale": run_scale, "pool": run_pool, "eltwise": run_eltwise, "records": run_records}[case["part"]](case)
 
 
 def summarise(agg, tier):
     q = tier == "quick"
     return {
         "thresholds": {"scale_evaluations": 100000 if q else 10000000, "pool_windows": 2000 if q else 3000, "pool_accumulators": 1000000 if q else 5000000,
-                       "eltwise_triples": 50000 if q else 1000000, "equal_scale_triples": 5000 if q else 100000},
+                       "eltwise_triples": 50000 if q else 1000000, "equal_scale_triples": 5000 if q else 100000,
+                       "record_compilations": 80 if q else 1500, "scale_records_checked": 20000 if q else 400000},
         "rule": "scale part: float32 mantissa sweep for 6 exponents (strided in quick), 181 exponents x sampled mantissas, boundaries, random doubles, each as "
                 "python float / np.float64 / np.float32; pool part: every window 1..1024 + sampled up to 65536, all reachable accumulators for small windows, ties beyond; "
-                "eltwise part: random (s1,s2,s_out) triples incl. equal scales, 8- and 16-bit. distinct = (exponent, low mantissa byte) classes + windows + triples",
+                "eltwise part: random (s1,s2,s_out) triples incl. equal scales, 8- and 16-bit; records part: packed 10-byte scale records of real compilations against "
+                "the reference derivation for the requesting operator. distinct = (exponent, low mantissa byte) classes + windows + triples",
         "assumptions": ["oracle = exact rational arithmetic + own port of TFLite QuantizeMultiplier; equality is on the denoted value m*2^-shift",
                         "where TFLite flushes (exponent < -31) only the 2^-31 error bound is required",
                         "average-pool oracle is the TFLite reference rounding (half away from zero), identical to round-half-up for non-negative accumulators (DESIGN 8)",
